@@ -19,7 +19,8 @@ def _all_calls(fx, np, pid, t, codes, shape, rng, t2=None, full=True):
                         continue
                 if not full and rng.random() < 0.5:
                     continue
-                out.append(x_reduce.observe_reduce(fx, np, [pid], fn, route, t, codes, shape, axis=ax))
+                via = rng.choice(['direct', 'direct', 'T', 'slice'] + (['row', 'col'] if len(shape) == 1 else []))
+                out.append(x_reduce.observe_reduce(fx, np, [pid], fn, route, t, codes, shape, axis=ax, via=via))
     cl, ch = sorted([rng.randint(lo, hi), rng.randint(lo, hi)])
     for route in ('np', 'method'):
         out.append(x_reduce.observe_reduce(fx, np, [pid], 'clip', route, t, codes, shape, lohi=(cl, ch)))
@@ -42,7 +43,8 @@ def _dot_calls(fx, np, pid, t, t2, rng, ext_only, n):
         ca = [pick(lo, hi) for _ in range(sa[0] * (sa[1] if len(sa) == 2 else 1))]
         cb = [pick(l2, h2) for _ in range(sb[0] * (sb[1] if len(sb) == 2 else 1))]
         for route in ('np', 'method') + (('matmul',) if (len(sa) == 2 and len(sb) == 2) else ()):
-            out.append(x_reduce.observe_reduce(fx, np, [pid], 'dot', route, t, ca, sa, t2=t2, codes2=cb, shape2=sb))
+            out.append(x_reduce.observe_reduce(fx, np, [pid], 'dot', route, t, ca, sa, t2=t2, codes2=cb, shape2=sb,
+                                               via=rng.choice(['direct', 'T', 'slice'])))
     return out
 
 
